@@ -163,7 +163,8 @@ def run(ck):
         "names with non-ASCII characters are outside the domain of C20_lint",
         "the library verdicts (run_script_file / run_script / repl / parse_file results) are parameters of the model; the in-process "
         "harness supplies them with the same SDK context construction as duckscript_cli::create_context",
-        "`!print` pre-processor lines write to the process's stdout, not to Env.out; scripts with `!print` are not generated",
+        "`!print` pre-processor lines write to the process's stdout, not to Env.out: the in-process library run cannot capture them; "
+        "for scripts with `!print` the oracle is the documented order (each directive once, at parse time, then the run's output)",
         "REPL: only the `exit` path is exercised (on end-of-input the REPL loop never returns: read_line keeps returning Ok(0))",
     ]
 
@@ -397,9 +398,52 @@ def body(ck, rng, work, thorough, model_ok):
                                   "expected_lines_in_order": j["want"], "expected_failure": j["fail"],
                                   "executable(status, stdout)": [rc, out], "theorems": ["C20_exit_status", "C20_error_line"],
                                   "replay_cmd": "cd <dir with child.ds> && %s %s ; echo $?" % (DUCK, " ".join(repr(a) for a in j["args"]))})
+    # --- scripts with `!print` pre-processor lines: they write to the process's stdout while the script is PARSED (so the
+    # in-process harness cannot host them either); the library parses a script once, so every directive prints once, all of
+    # them before the first instruction runs, in line order (seed C20-w5-m2: a validation parse ran the directives twice)
+    print_jobs = []
+    for c in range(60 if thorough else 16):
+        k += 1
+        lines, pre, run_ = [], [], []
+        for jn in range(rng.randint(2, 8)):
+            r = rng.random()
+            if r < 0.45:
+                words = ["PRE%d_%d" % (k, jn)] + [rng.choice(["x", "two words", "${a}", "#h"]) for _ in range(rng.randint(0, 2))]
+                lines.append("!print " + " ".join('"%s"' % w if " " in w or "#" in w else w for w in words))
+                pre.append(" ".join(words))
+            elif r < 0.85:
+                lines.append("echo RUN%d_%d" % (k, jn))
+                run_.append("RUN%d_%d" % (k, jn))
+            else:
+                lines.append("a = set v%d" % jn)
+        fail = rng.random() < 0.3
+        if fail:
+            lines.append("exit 3")
+        text = "\n".join(lines) + "\n"
+        d = mkdir(k)
+        open(os.path.join(d, "pp.ds"), "w").write(text)
+        for a in (["pp.ds"], ["-e", text], ["--eval", text]):
+            print_jobs.append({"args": a, "cwd": d, "stdin": None, "text": text, "want": pre + run_, "fail": fail})
+    with ThreadPoolExecutor(max_workers=16) as ex:
+        pres = list(ex.map(run_duck, [(j["args"], j["cwd"], j["stdin"]) for j in print_jobs]))
+    for j, (rc, out) in zip(print_jobs, pres):
+        got = [l.strip() for l in out.split("\n") if l.strip()]
+        body_lines = [l for l in got if not l.startswith("Error:")]
+        ok = body_lines == j["want"] and ((rc != 0 and got and got[-1].startswith("Error:")) if j["fail"]
+                                           else (rc == 0 and len(got) == len(body_lines)))
+        nontriv.add(("PRINT", j["text"]))
+        if not ok:
+            found = True
+            if len(ck.violations) < 5:
+                ck.violation({"kind": "`!print` directives: every directive prints once, before the run, in line order; then the run's output",
+                              "seed": ck.seed, "args": j["args"], "script": j["text"],
+                              "expected_lines_in_order": j["want"], "expected_failure": j["fail"],
+                              "executable(status, stdout)": [rc, out], "theorems": ["C20_exit_status", "C20_error_line"],
+                              "replay_cmd": "cd <dir with pp.ds> && %s %s ; echo $?" % (DUCK, " ".join(repr(a) for a in j["args"]))})
+    dist["print_directive_scripts"] = len(print_jobs)
     dist["child_output_scripts"] = len(child_jobs)
     ck.coverage.update({
-        "evaluations": len(jobs) + len(child_jobs),
+        "evaluations": len(jobs) + len(child_jobs) + len(print_jobs),
         "distinct_nontrivial": len(nontriv),
         "rule": "every job is one run of the executable; non-trivial = distinct (action, library verdict, library output, message) for "
                 "run forms, distinct lint script for lint forms. Scripts: succeeding (incl. exit / exit 0 / exit abc), exit <non-zero>, "
